@@ -141,7 +141,7 @@ func (c02Suite) Gen(rng *Rng, tier string, w *bufio.Writer, stats *Stats) {
 		}
 	}
 	// the proved fragment of opt_equiv (C01 stages S1 / S2a and the count fragment): drawn LAST, so the stream above is unchanged
-	fg := s1Gen{rng}
+	fg := s1Gen{rng: rng}
 	nfrag := 40
 	if tier == "thorough" {
 		nfrag = 400
@@ -151,8 +151,8 @@ func (c02Suite) Gen(rng *Rng, tier string, w *bufio.Writer, stats *Stats) {
 		stats.Inc("fragment.s1")
 	}
 	for i := 0; i < nfrag; i++ {
-		emit("fragment:s2a", fg.s2Query(), 0, 0)
-		stats.Inc("fragment.s2a")
+		emit("fragment:s2b", fg.s2Query(), 0, 0)
+		stats.Inc("fragment.s2b")
 	}
 	for _, k := range []string{"", ":NodeKind1", ":NodeKind2", ":NodeKind1:NodeKind2", ":NodeKind2:NodeKind1"} {
 		emit("fragment:count", "match (n"+k+") return count(n)", 0, 0)
